@@ -115,6 +115,17 @@ struct Running {
     child: Child,
     rx: Receiver<FromChild>,
     stderr_tail: Arc<Mutex<Vec<u8>>>,
+    /// cases go to the worker through a writer thread: a worker that has stopped reading (it hangs in a case) must not
+    /// block its manager in a write to a full pipe - the manager has to stay free to time the worker out
+    to_child: Option<std::sync::mpsc::Sender<String>>,
+}
+
+impl Running {
+    fn send(&self, line: &str) {
+        if let Some(tx) = &self.to_child {
+            let _ = tx.send(line.to_owned());
+        }
+    }
 }
 
 fn spawn_worker(family: &str) -> Running {
@@ -129,6 +140,16 @@ fn spawn_worker(family: &str) -> Running {
         .expect("spawn worker");
     let stdout = child.stdout.take().unwrap();
     let mut stderr = child.stderr.take().unwrap();
+    let mut stdin = child.stdin.take().unwrap();
+    let (to_child, lines) = channel::<String>();
+    std::thread::spawn(move || {
+        for line in lines {
+            if stdin.write_all(line.as_bytes()).and_then(|_| stdin.write_all(b"\n")).and_then(|_| stdin.flush()).is_err() {
+                return;
+            }
+        }
+        // the sender is gone: closing stdin tells the worker to finish
+    });
     let (tx, rx) = channel();
     std::thread::spawn(move || {
         let r = BufReader::new(stdout);
@@ -162,7 +183,7 @@ fn spawn_worker(family: &str) -> Running {
             }
         }
     });
-    Running { child, rx, stderr_tail }
+    Running { child, rx, stderr_tail, to_child: Some(to_child) }
 }
 
 fn manager(family: String, work: Arc<Mutex<Receiver<(u64, String)>>>, opts: Arc<Opts>, summary: Arc<Mutex<Summary>>) {
@@ -216,11 +237,7 @@ fn manager(family: String, work: Arc<Mutex<Receiver<(u64, String)>>>, opts: Arc<
                         last_progress = Instant::now();
                         cpu_at_progress = crate::util::proc_tree_cpu_ms(run.child.id()).unwrap_or(0);
                     }
-                    if let Some(stdin) = run.child.stdin.as_mut() {
-                        let _ = stdin.write_all(line.as_bytes());
-                        let _ = stdin.write_all(b"\n");
-                        let _ = stdin.flush();
-                    }
+                    run.send(&line);
                     inflight.push_back((idx, line));
                 }
                 Err(done) => {
@@ -333,17 +350,13 @@ fn manager(family: String, work: Arc<Mutex<Receiver<(u64, String)>>>, opts: Arc<
                 run = spawn_worker(&family);
                 last_progress = Instant::now();
                 cpu_at_progress = 0;
-                if let Some(stdin) = run.child.stdin.as_mut() {
-                    for (_, line) in inflight.iter() {
-                        let _ = stdin.write_all(line.as_bytes());
-                        let _ = stdin.write_all(b"\n");
-                    }
-                    let _ = stdin.flush();
+                for (_, line) in inflight.iter() {
+                    run.send(line);
                 }
             }
         }
     }
-    drop(run.child.stdin.take());
+    run.to_child = None;
     let _ = run.child.wait();
 }
 
